@@ -225,3 +225,187 @@ Proof.
                     (standard_step_c_off gends find_at cfg env)).
   reflexivity.
 Qed.
+
+(* ---------- -o / --vimgrep (line-oriented): one record per recorded span ---------- *)
+Section PerMatchCols.
+  Variable gends : bytes -> list nat.
+  Variable cfg : stdconfig.
+  Variable cc : colcfg.
+  Variable env : senv.
+  Variable path : option bytes.
+  Variable sk : sunk.
+
+  Definition span_record_c (only : bool) (m : nat * nat) : bytes :=
+    prelude_spec cfg path (separator_field cfg sk) (k_off sk + fst m) (k_lnum sk) (Some (fst m + 1))
+    ++ line_or_notice gends (e_lt env) (cc_max cc) (cc_preview cc) (cc_trim cc) (st_only_matching cfg)
+         (is_context sk) (k_matches sk) (if only then sub (k_bytes sk) (fst m) (snd m) else k_bytes sk).
+
+  Lemma fold_span_records_c (only : bool) : forall (ms : list (nat * nat)) (w : wtr),
+    w_out (fold_left (fun (w : wtr) (m : nat * nat) =>
+             write_line_c gends cfg cc env sk (if only then sub (k_bytes sk) (fst m) (snd m) else k_bytes sk)
+               (write_prelude cfg path sk (k_off sk + fst m) (k_lnum sk) (Some (fst m + 1)) w)) ms w)
+    = w_out w ++ concat (map (span_record_c only) ms).
+  Proof.
+    induction ms as [|m ms IH]; intro w; cbn [fold_left map concat]; [now rewrite app_nil_r|].
+    rewrite IH, write_line_c_out, write_prelude_layout. unfold span_record_c. now rewrite <- !app_assoc.
+  Qed.
+
+  Lemma sink_slow_c_only_matching_layout w : st_only_matching cfg = true ->
+    w_out (sink_slow_c gends cfg cc env path sk w) = w_out w ++ concat (map (span_record_c true) (k_matches sk)).
+  Proof. intro H. unfold sink_slow_c. rewrite H. apply (fold_span_records_c true). Qed.
+
+  Lemma sink_slow_c_per_match_layout w : st_only_matching cfg = false -> st_per_match cfg = true ->
+    w_out (sink_slow_c gends cfg cc env path sk w) = w_out w ++ concat (map (span_record_c false) (k_matches sk)).
+  Proof. intros H1 H2. unfold sink_slow_c. rewrite H1, H2. apply (fold_span_records_c false). Qed.
+
+  (* ---------- multi-line block without recorded spans: one line_or_notice record per line ---------- *)
+  Fixpoint block_records_c (spans : list (nat * nat)) (i off : nat) : bytes :=
+    match spans with
+    | [] => []
+    | (s, e) :: r =>
+      prelude_spec cfg path (separator_field cfg sk) off (option_map (fun n => n + i) (k_lnum sk)) None
+      ++ line_or_notice gends (e_lt env) (cc_max cc) (cc_preview cc) (cc_trim cc) (st_only_matching cfg)
+           (is_context sk) (k_matches sk) (sub (k_bytes sk) s e)
+      ++ block_records_c r (S i) (off + (e - s))
+    end.
+
+  Lemma sink_fast_ml_loop_c_layout : forall spans i off w,
+    w_out (sink_fast_ml_loop_c gends cfg cc env path sk spans i off w) = w_out w ++ block_records_c spans i off.
+  Proof.
+    induction spans as [|[s e] r IH]; intros i off w; cbn [sink_fast_ml_loop_c block_records_c].
+    - now rewrite app_nil_r.
+    - rewrite IH, write_line_c_out, write_prelude_layout. now rewrite <- !app_assoc.
+  Qed.
+
+  Lemma sink_fast_multi_line_c_layout w :
+    w_out (sink_fast_multi_line_c gends cfg cc env path sk w)
+    = w_out w ++ block_records_c (line_spans (lt_byte (e_lt env)) (k_bytes sk)) 0 (k_off sk).
+  Proof. apply sink_fast_ml_loop_c_layout. Qed.
+
+  (* ---------- multi-line block with recorded spans (-U --column / --stats) ---------- *)
+  Fixpoint slow_block_records_c (spans : list (nat * nat)) (count : nat) : bytes :=
+    match spans with
+    | [] => []
+    | (s, e) :: r =>
+      prelude_spec cfg path (separator_field cfg sk) (k_off sk + s) (option_map (fun n => n + count) (k_lnum sk))
+                   (Some (fst (nth_span (k_matches sk) 0) + 1))
+      ++ block_line_text gends (e_lt env) (cc_max cc) (cc_preview cc) (cc_trim cc) (is_context sk)
+           (k_matches sk) (k_bytes sk) s e
+      ++ slow_block_records_c r (S count)
+    end.
+
+  Lemma impl_trim_is_spec s e :
+    impl_trim_ascii_prefix cc env (k_bytes sk) s e
+    = if cc_trim cc then s + length (take_while (trimmable (e_lt env)) (sub (k_bytes sk) s e)) else s.
+  Proof.
+    unfold impl_trim_ascii_prefix, trim_ascii_prefix. destruct (cc_trim cc); cbn [negb]; [|reflexivity].
+    f_equal. f_equal. apply take_while_ext. apply trim_pred_trimmable.
+  Qed.
+
+  Lemma sink_slow_ml_loop_c_layout : forall spans count midx w,
+    st_only_matching cfg = false ->
+    Forall (fun se => block_line_guard gends (e_lt env) (cc_max cc) (cc_trim cc) (k_bytes sk) (fst se) (snd se)) spans ->
+    midx < length (k_matches sk) ->
+    w_out (sink_slow_ml_loop_c gends cfg cc env path sk spans count midx w) = w_out w ++ slow_block_records_c spans count.
+  Proof.
+    induction spans as [|[s e] r IH]; intros count midx w Hom Hall Hm; cbn [sink_slow_ml_loop_c slow_block_records_c].
+    - now rewrite app_nil_r.
+    - inversion Hall as [|? ? Hse Hr]; subst. cbn [fst snd] in Hse. unfold block_line_guard in Hse. cbn zeta in Hse.
+      unfold block_line_text. cbn zeta. rewrite impl_trim_is_spec.
+      set (s' := if cc_trim cc then s + length (take_while (trimmable (e_lt env)) (sub (k_bytes sk) s e)) else s) in *.
+      destruct Hse as [Hplain Hcut].
+      set (w1 := write_prelude cfg path sk (k_off sk + s) (option_map (fun n => n + count) (k_lnum sk))
+                   (Some (fst (nth_span (k_matches sk) 0) + 1)) w).
+      assert (Ew1 : w_out w1 = w_out w ++ prelude_spec cfg path (separator_field cfg sk) (k_off sk + s)
+                                 (option_map (fun n => n + count) (k_lnum sk))
+                                 (Some (fst (nth_span (k_matches sk) 0) + 1))) by apply write_prelude_layout.
+      assert (Hplain_case :
+        w_out (let (midx0, w0) := write_colored_matches env (k_bytes sk) s' e (k_matches sk) midx w1 in
+               sink_slow_ml_loop_c gends cfg cc env path sk r (S count) midx0 (write_line_term env w0))
+        = w_out w ++ prelude_spec cfg path (separator_field cfg sk) (k_off sk + s)
+                       (option_map (fun n => n + count) (k_lnum sk)) (Some (fst (nth_span (k_matches sk) 0) + 1))
+                  ++ (sub (k_bytes sk) s' (trim_line_terminator (e_lt env) (k_bytes sk) s' e) ++ lt_bytes (e_lt env))
+                  ++ slow_block_records_c r (S count)).
+      { destruct (write_colored_matches_out env sk s' e midx w1 Hplain Hm) as [E1 E2].
+        destruct (write_colored_matches env (k_bytes sk) s' e (k_matches sk) midx w1) as [midx' w'].
+        cbn [fst snd] in E1, E2. rewrite IH by assumption.
+        unfold write_line_term, lt. cbn [write w_out]. rewrite E1, Ew1. now rewrite <- !app_assoc. }
+      unfold exceeds_max_columns. destruct (cc_max cc) as [limit|] eqn:Emax; [|exact Hplain_case].
+      destruct (Nat.leb_spec (length (sub (k_bytes sk) s' e)) limit) as [Hle|Hgt].
+      + replace (Nat.ltb limit (length (sub (k_bytes sk) s' e))) with false by (symmetry; apply Nat.ltb_ge; exact Hle).
+        exact Hplain_case.
+      + replace (Nat.ltb limit (length (sub (k_bytes sk) s' e))) with true by (symmetry; apply Nat.ltb_lt; exact Hgt).
+        unfold write_exceeded_line. destruct (cc_preview cc).
+        * unfold preview_end. rewrite Emax. fold (preview_cut gends limit (sub (k_bytes sk) s' e)).
+          set (cut := preview_cut gends limit (sub (k_bytes sk) s' e) + s').
+          specialize (Hcut limit eq_refl). fold cut in Hcut.
+          destruct (write_colored_matches_out env sk s' cut midx w1 Hcut Hm) as [E1 E2].
+          destruct (write_colored_matches env (k_bytes sk) s' cut (k_matches sk) midx w1) as [midx' w'].
+          cbn [fst snd] in E1, E2. rewrite IH by assumption.
+          unfold write_line_term, lt. cbn [write w_out]. rewrite E1, Ew1, preview_notice_is_spec.
+          now rewrite <- !app_assoc.
+        * rewrite IH by assumption. unfold write_line_term, lt. cbn [write w_out].
+          rewrite Ew1, omitted_notice_is_spec, Hom. destruct (k_matches sk) as [|m0 ms] eqn:Ems; [cbn in Hm; lia|].
+          now rewrite <- !app_assoc.
+  Qed.
+
+  Lemma sink_slow_multi_line_c_layout w :
+    st_only_matching cfg = false -> st_per_match cfg = false -> k_matches sk <> [] ->
+    Forall (fun se => block_line_guard gends (e_lt env) (cc_max cc) (cc_trim cc) (k_bytes sk) (fst se) (snd se))
+           (line_spans (lt_byte (e_lt env)) (k_bytes sk)) ->
+    w_out (sink_slow_multi_line_c gends cfg cc env path sk w)
+    = w_out w ++ slow_block_records_c (line_spans (lt_byte (e_lt env)) (k_bytes sk)) 0.
+  Proof.
+    intros Hom Hpm Hne Hall. unfold sink_slow_multi_line_c. rewrite Hom, Hpm.
+    apply sink_slow_ml_loop_c_layout; [exact Hom|exact Hall|].
+    destruct (k_matches sk); [congruence|cbn [length]; lia].
+  Qed.
+End PerMatchCols.
+
+(* ---------- the cut of a preview is the end of one of the first `limit` graphemes (or 0) ---------- *)
+Lemma last_firstn_nth (l : list nat) : forall n,
+  firstn n l = [] \/ exists i, i < n /\ nth_error l i = Some (last (firstn n l) 0).
+Proof.
+  induction l as [|a l IH]; intro n.
+  - left. now rewrite firstn_nil.
+  - destruct n as [|n]; [left; reflexivity|]. right. cbn [firstn].
+    destruct (IH n) as [E|[i [Hi Hn]]].
+    + exists 0. rewrite E. cbn [last nth_error]. split; [lia|reflexivity].
+    + exists (S i). split; [lia|]. cbn [nth_error]. rewrite Hn. f_equal.
+      destruct (firstn n l) as [|b r] eqn:E; [|reflexivity].
+      (* firstn n l = [] but nth_error l i is defined with i < n: then last [] 0 = 0 = the element; still fine *)
+      cbn [last]. cbn [last] in Hn. destruct n as [|n']; [lia|]. destruct l as [|c l']; [destruct i; discriminate|discriminate].
+Qed.
+
+Lemma preview_cut_boundary gends limit shown :
+  preview_cut gends limit shown = 0
+  \/ exists i, i < limit /\ nth_error (gends shown) i = Some (preview_cut gends limit shown).
+Proof.
+  unfold preview_cut. destruct (last_firstn_nth (gends shown) limit) as [E|H]; [left; now rewrite E|right; exact H].
+Qed.
+
+Lemma preview_cut_in_line gends limit shown :
+  Forall (fun e => e <= length shown) (gends shown) -> preview_cut gends limit shown <= length shown.
+Proof.
+  intro Hall. destruct (preview_cut_boundary gends limit shown) as [E|[i [_ Hn]]]; [lia|].
+  rewrite Forall_forall in Hall. apply Hall. eapply nth_error_In. exact Hn.
+Qed.
+
+Lemma trim_line_terminator_le lt buf st en : trim_line_terminator lt buf st en <= en.
+Proof.
+  unfold trim_line_terminator. destruct (lt_is_suffix lt (sub buf st en)); [|lia].
+  destruct lt; [lia|]. destruct (_ && _); lia.
+Qed.
+
+(* under the one fact assumed about the segmentation (every grapheme ends inside the string), the preview is
+   exactly the first k bytes of the shown line for a k <= cut <= length *)
+Lemma preview_prefix_length gends lt limit shown :
+  Forall (fun e => e <= length shown) (gends shown) ->
+  let cut := preview_cut gends limit shown in
+  let k := trim_line_terminator lt shown 0 cut in
+  k <= cut /\ cut <= length shown /\ length (firstn k shown) = k.
+Proof.
+  intro Hall. cbn zeta. pose proof (preview_cut_in_line gends limit shown Hall) as Hc.
+  pose proof (trim_line_terminator_le lt shown 0 (preview_cut gends limit shown)) as Hk.
+  repeat split; [exact Hk|exact Hc|]. rewrite firstn_length. lia.
+Qed.
